@@ -2,7 +2,9 @@ package props
 
 import (
 	"bytes"
+	"crypto/sha256"
 	"fmt"
+	"golang.org/x/crypto/ripemd160"
 
 	"github.com/libsv/go-bt/v2"
 	"github.com/libsv/go-bt/v2/bscript"
@@ -113,4 +115,11 @@ func txid32(seed byte) []byte {
 		b[i] = seed ^ byte(i*3+1)
 	}
 	return b
+}
+
+func refHash160(b []byte) []byte {
+	h := sha256.Sum256(b)
+	r := ripemd160.New()
+	r.Write(h[:])
+	return r.Sum(nil)
 }
